@@ -535,16 +535,32 @@ func ruleRefundBooked(r *core.Run) {
 			key := core.Key("T-refund-booked", r.P.Name(f), "market refund lowers Order.Amount and is persisted")
 			amt := normT(fr.Sub(e.Args[2].String()))
 			coin := byTypeParams(f, strings.TrimSuffix(strings.TrimPrefix(amt, "["), "]"))
-			okDelta := false
-			for _, d := range deltasOf(r, f) {
-				if d.Field == "order/types.Order.Amount" && d.Sign == -1 && d.Term != "" && d.Term == coin {
-					okDelta = true
-				}
-			}
-			// the order is persisted after the payout on every path, in the paying function or an enclosing frame
-			okSet := false
+			// one function (the paying one or an enclosing frame) both lowers the recorded Amount by the refunded coin
+			// and persists the order after the payout on every path: a copy lowered in a helper is not what is saved
+			okDelta, okSet := false, false
 			fns := fr.Fns(f)
-			for lvl := len(fr.Chain); lvl >= 0 && !okSet; lvl-- {
+			all := frames(r, f)
+			for lvl := len(fr.Chain); lvl >= 0 && !(okDelta && okSet); lvl-- {
+				okDelta, okSet = false, false
+				for _, fl := range all {
+					if fl.Fn != fns[lvl] || len(fl.Chain) != lvl {
+						continue
+					}
+					same := true
+					for i := range fl.Chain {
+						if fl.Chain[i] != fr.Chain[i] {
+							same = false
+						}
+					}
+					if !same {
+						continue
+					}
+					for _, d := range deltasOfFrame(r, f, fl) {
+						if d.Field == "order/types.Order.Amount" && d.Sign == -1 && d.Term != "" && d.Term == coin {
+							okDelta = true
+						}
+					}
+				}
 				at := fr.At(lvl, e.Instr)
 				set := blocksCalling(r, fns[lvl], fSetOrder)
 				okSet = len(set) > 0 && (set[at.Block()] || forwardAvoid(at.Block(), set, nil, isReturnBlock) == nil)
